@@ -25,13 +25,23 @@ func (cit *CallIterator) M__iter__() (Object, error) {
 
 // Get next one from the iteration
 func (cit *CallIterator) M__next__() (Object, error) {
+	if cit.callable == nil {
+		// the sentinel was seen: the iterator stays exhausted
+		return nil, StopIteration
+	}
 	value, err := Call(cit.callable, nil, nil)
 
 	if err != nil {
 		return nil, err
 	}
 
-	if value == cit.sentinel {
+	// the value is compared with the sentinel as python's == does
+	eq, err := ItemEq(value, cit.sentinel)
+	if err != nil {
+		return nil, err
+	}
+	if eq == True {
+		cit.callable = nil
 		return nil, StopIteration
 	}
 
